@@ -32,6 +32,9 @@ RULE = (
 RULE += (
     ' Keywords are also reassigned to JSON lookalikes of their current value (true/1/1.0, 2/2.0). After a reconfiguration each verdict also gets a second opinion from ref6; where that differs, the same configuration and value are judged in a NEW interpreter (vlib/fresh_driver.py) and only a difference between this process and the pristine one is reported.'
 )
+RULE += (
+    ' Round 9: rule set_elements reassigns the MEMBERS of a composition (drop / reverse / single / new), preferring compositions that are members of other compositions; family nested_composition (anyOf / oneOf / allOf inside one or two allOf levels, next to a typed or untyped sibling); put_prop may replace a renamed property.'
+)
 ASSUMPTIONS = [
     "only the reconfiguration forms named by the statement/docs: attribute assignment, properties assignment, properties[...] = / del",
     "no shared sub-elements and no inheritance in these trees (a parent's later reconfiguration is C15's subject)",
@@ -117,6 +120,13 @@ class Harness:
             else:
                 setattr(obj, op["key"], R._sub(copy.deepcopy(value), self.env))
                 node.setdefault("sub", {})[op["key"]] = copy.deepcopy(value)
+        elif kind == "set_elements":
+            # comp.elements = [...]: drop a member, reverse them, or replace them by new ones
+            if node["kind"] not in ("AnyOf", "OneOf", "AllOf") or not op["elements"]:
+                return []
+            built = [R._build(copy.deepcopy(e), self.env) for e in op["elements"]]
+            obj.elements = built
+            node["elements"] = copy.deepcopy(op["elements"])
         elif kind == "set_props":
             if node["kind"] not in ("Element", "Object"):
                 return []
@@ -331,6 +341,23 @@ def default_flip_recipes(draw):
 
 
 @st.composite
+def nested_composition_recipes(draw):
+    """A composition inside an allOf: which member builds the outer result depends on the inner composition's members
+    (explicit type / union / untyped) - and those can be reassigned."""
+    inner_kind = draw(st.sampled_from(["AnyOf", "OneOf", "AllOf"]))
+    inner = {"id": 2, "kind": inner_kind, "kw": {}, "elements": [
+        {"id": 3, "kind": draw(st.sampled_from(["Integer", "Number", "String"])), "kw": {}},
+        {"id": 4, "kind": draw(st.sampled_from(["String", "Number", "Element", "Null"])), "kw": {}}]}
+    mid = {"id": 5, "kind": "AllOf", "kw": {}, "elements": [inner]} if draw(st.booleans()) else inner
+    outer = {"id": 1, "kind": "AllOf", "kw": {}, "elements": [mid, {"id": 6, "kind": draw(st.sampled_from(["Number", "Element"])),
+                                                                 "kw": {}}]}
+    if draw(st.integers(0, 2)) == 0:
+        return {"id": 9, "kind": "Element", "kw": {}, "props": [
+            {"name": "v", "source": None, "required": False, "element": outer}]}
+    return outer
+
+
+@st.composite
 def tuple_tail_recipes(draw):
     """Tuple items with a tail governed by additionalItems: arrays longer than the tuple are validated, additionalItems
     is reassigned (another schema, false, true), and the same arrays are validated again."""
@@ -359,7 +386,7 @@ class Machine(RuleBasedStateMachine):
         self.counter = 0
 
     @initialize(recipe=st.one_of(R.recipes(CFG), R.recipes(CFG), R.recipes(CFG), overlap_recipes(), lookalike_recipes(),
-                                 default_flip_recipes(), tuple_tail_recipes()), data=st.data())
+                                 default_flip_recipes(), tuple_tail_recipes(), nested_composition_recipes()), data=st.data())
     def init(self, recipe, data):
         self.h = Harness(recipe)
         # every history starts with validations, so that later reconfigurations
@@ -433,6 +460,40 @@ class Machine(RuleBasedStateMachine):
                 elif isinstance(base, list):
                     self._do({"op": "validate", "value": [lit]})
         self._aimed_validate(data)
+
+    @rule(data=st.data())
+    def set_elements(self, data):
+        ids = self._nodes(["AnyOf", "OneOf", "AllOf"])
+        if not ids:
+            return
+        # compositions that are members of other compositions come first: what the OUTER ones derive from their members
+        # (which member is the most specific, what the union of types is) has to follow the inner change
+        idx_all = R.index(self.h.model)
+        inner_ids = sorted({e["id"] for i in ids for e in (idx_all[i].get("elements") or [])
+                            if "kind" in e and e["id"] in ids})
+        nid = data.draw(st.sampled_from(inner_ids)) if inner_ids and data.draw(st.integers(0, 2)) else \
+            data.draw(st.sampled_from(ids))
+        node = idx_all[nid]
+        current = node.get("elements") or []
+        inline = [e for e in current if "kind" in e]
+        how = data.draw(st.sampled_from(["drop", "drop", "reverse", "new", "single"]))
+        self.counter += 1
+        gen = fresh_gen(self.counter)
+        if how == "drop" and len(inline) > 1:
+            new = inline[:-1]
+        elif how == "reverse" and len(inline) > 1:
+            new = list(reversed(inline))
+        elif how == "single" and inline:
+            new = inline[:1]
+        else:
+            new = [data.draw(R._node(CFG, 0, gen)) for _ in range(data.draw(st.integers(1, 2)))]
+        # (members that were references to shared nodes are not carried over: CFG has sharing off)
+        for value in data.draw(values_for(R.to_schema(self.h.model), 1, 2)):
+            self._do({"op": "validate", "value": value})
+        self._do({"op": "set_elements", "node": nid, "elements": new})
+        self._aimed_validate(data)
+        for value in (1, 1.5, "a", None, {}, [1]):
+            self._do({"op": "validate", "value": value})
 
     @rule(data=st.data())
     def retail(self, data):
@@ -529,6 +590,11 @@ class Machine(RuleBasedStateMachine):
         nid = data.draw(st.sampled_from(ids))
         self.counter += 1
         props = data.draw(R._props_strategy(CFG, 1, fresh_gen(self.counter)))
+        renamed = [q for q in idx[nid].get("props") or [] if q.get("source") is not None and q["source"] != q["name"]]
+        if props and renamed and data.draw(st.booleans()):
+            # REPLACE a renamed property by an un-renamed one of the same attribute name: the JSON name is then the
+            # attribute name, nothing of the old wrapper lives on
+            props[0] = dict(props[0], name=data.draw(st.sampled_from(renamed))["name"], source=None)
         for p in props[:1]:
             if self.h.duplicate_sources(idx[nid], p):
                 continue
